@@ -49,9 +49,26 @@ def check(ctx):
         if not ctx.replay and (proc.returncode != 0 or ncases != n):
             ctx.broken_correspondence({"what": f"the harness ended early: {ncases} of {n} cases (exit status {proc.returncode})",
                                        "cmd": " ".join(cmd), "stderr": proc.stderr.decode(errors="replace")[:1500]})
-    except subprocess.TimeoutExpired:
-        ctx.broken_correspondence({"what": "the harness did not finish: the library hangs or spins under the simulated kernel",
-                                   "cmd": " ".join(cmd)})
+    except subprocess.TimeoutExpired as te:
+        # the output is flushed case by case: the case after the last finished one is the one that does not end.  Run it alone to
+        # make sure, and report it as a concrete replay (an operation on a Popen that never returns under the simulated kernel:
+        # poll/wait_timeout must not block, and a wait on a child that exits must end).
+        done = [int(l[5:]) for l in (te.stdout or b"").decode(errors="replace").splitlines() if l.startswith("CASE ")]
+        idx = (done[-1] + 1) if done else (json.load(open(ctx.replay))["case_index"] if ctx.replay else 0)
+        one = [ctx.harness_bin("harness"), "life", str(ctx.seed if not ctx.replay else json.load(open(ctx.replay))["seed"]), str(idx + 1), str(idx)]
+        alone = None
+        try:
+            subprocess.run(one, stdout=subprocess.PIPE, stderr=subprocess.PIPE, timeout=60)
+        except subprocess.TimeoutExpired:
+            alone = True
+        if alone:
+            ctx.violation({"seed": ctx.seed, "case_index": idx, "cmd": " ".join(one),
+                           "what": "this operation sequence does not end under the simulated kernel: an operation on the Popen hangs or "
+                                   "spins (the harness was stopped after 60 s of real time; every simulated call returns at once)",
+                           "finished_cases_before_it": len(done)})
+        else:
+            ctx.broken_correspondence({"what": "the harness did not finish: the library hangs or spins under the simulated kernel",
+                                       "cmd": " ".join(cmd), "last_finished_case": done[-1] if done else None})
         return
     cases, cur = [], None
     for l in out:
